@@ -13,6 +13,11 @@ transcribed here, one by one, from
                                                            deleteKey / rename / select / filterSet)
     hail/hail/src/is/hail/expr/ir/InferType.scala         (MakeStruct / SelectFields / InsertFields / GetField /
                                                            Let / Ref / TableGetGlobals / TableCollect)
+    hail/hail/src/is/hail/expr/ir/TypeCheck.scala         (what the engine ASSERTS about the children of the nodes that
+                                                           combine several relational children -- their ``typ`` only looks
+                                                           at the first one: TableUnion, TableMultiWayZipJoin,
+                                                           MatrixUnionRows, MatrixUnionCols, TableJoin,
+                                                           TableLeftJoinRightDistinct)
 
 This is a REFERENCE (an oracle), used by vf/monitors/c36.py: nothing here is the code under test and none of the
 Python front end's own struct algebra (``tstruct._concat / _insert_fields / _insert / _rename / _select_fields /
@@ -439,12 +444,47 @@ class EngineTyper:
 
     _r_TableFilter = _r_TableHead = _r_TableTail = _r_TableRepartition = _r_TableDistinct = _r_TableFilterIntervals = _same_as_child
 
+    # ---- TypeCheck.scala: agreement of the children of nodes with several relational children -------------------
+    def same(self, a, b):
+        """Type == Type (struct field names, order and types)"""
+        return canon(self.hl, a) == canon(self.hl, b)
+
+    def compatible(self, a, b):
+        """TBaseStruct.isCompatibleWith: forallZippedFields(other)(_.typ == _.typ) -- positional, names ignored, the shorter length"""
+        return all(self.same(t1, t2) for (_, t1), (_, t2) in zip(a.items(), b.items()))
+
+    def nary(self, x, children):
+        """counters: the agreement rule of an n-ary node was evaluated; ... over children that are not all one and the same node;
+        ... over children whose Python types are not all the same object-equal type (where a disagreement can show at all)"""
+        cls = type(x).__name__
+        self.count('nary_children_rule_checked')
+        self.count('nary_children_rule_checked:' + cls)
+        if len({id(c) for c in children}) > 1:
+            self.count('nary_children_rule_checked_distinct_children:' + cls)
+        if len(children) > 2:
+            self.count('nary_children_rule_checked_3plus_children:' + cls)
+
     def _r_TableUnion(self, x):                 # childrenSeq(0).typ
-        return self.child(x.children[0])
+        cs = [self.child(c) for c in x.children]
+        self.nary(x, list(x.children))
+        # TypeCheck.scala: assert(childrenSeq.tail.forall(_.typ.rowType == childrenSeq(0).typ.rowType));
+        #                  assert(childrenSeq.tail.forall(_.typ.key == childrenSeq(0).typ.key))
+        for i, c in enumerate(cs[1:], 1):
+            if not self.same(c.row, cs[0].row):
+                raise EngineRejects(f'TableUnion: row type of child {i} is {c.row}, of child 0 {cs[0].row}')
+            if list(c.key) != list(cs[0].key):
+                raise EngineRejects(f'TableUnion: key of child {i} is {c.key}, of child 0 {cs[0].key}')
+        return cs[0]
 
     def _r_TableJoin(self, x):
         l, r = self.child(x.left), self.child(x.right)
         jk = x.join_key
+        # TypeCheck.scala: key lengths >= joinKey; left.keyType.truncate(joinKey) isJoinableWith right.keyType.truncate(joinKey)
+        # (same size, positionally equal types); global field names disjoint
+        if len(l.key) < jk or len(r.key) < jk:
+            raise EngineRejects(f'TableJoin: join key {jk} longer than a key ({l.key}, {r.key})')
+        if not self.compatible(self.key_type(l.row, l.key[:jk]), self.key_type(r.row, r.key[:jk])):
+            raise EngineRejects(f'TableJoin: keys not joinable: {self.key_type(l.row, l.key[:jk])} / {self.key_type(r.row, r.key[:jk])}')
         left_key, right_key = l.key[:jk], r.key[:jk]
         left_key_type = self.key_type(l.row, left_key)
         left_value_type = self.value_type(l.row, left_key)
@@ -460,7 +500,17 @@ class EngineTyper:
         return self.T(self.s_append(l.row, x.root, self.hl.tarray(rv) if x.product else rv), l.key, l.globals)
 
     def _r_TableMultiWayZipJoin(self, x):
-        f = self.child(x.children[0])
+        cs = [self.child(c) for c in x.children]
+        self.nary(x, list(x.children))
+        # TypeCheck.scala: "all rows must have the same type", "all keys must be the same", "all globals must have the same type"
+        for i, c in enumerate(cs[1:], 1):
+            if not self.same(c.row, cs[0].row):
+                raise EngineRejects(f'TableMultiWayZipJoin: row type of child {i} is {c.row}, of child 0 {cs[0].row}')
+            if list(c.key) != list(cs[0].key):
+                raise EngineRejects(f'TableMultiWayZipJoin: key of child {i} is {c.key}, of child 0 {cs[0].key}')
+            if not self.same(c.globals, cs[0].globals):
+                raise EngineRejects(f'TableMultiWayZipJoin: globals of child {i} are {c.globals}, of child 0 {cs[0].globals}')
+        f = cs[0]
         hl = self.hl
         new_global = self.S([(x.global_name, hl.tarray(f.globals))])
         new_value = self.S([(x.data_name, hl.tarray(self.value_type(f.row, f.key)))])
@@ -468,6 +518,9 @@ class EngineTyper:
 
     def _r_TableLeftJoinRightDistinct(self, x):  # left.typ.copy(rowType = left.rowType.structInsert(right.typ.valueType, FastSeq(root)))
         l, r = self.child(x.left), self.child(x.right)
+        # TypeCheck.scala: assert(right.typ.keyType isPrefixOf left.typ.keyType)   (size <=, positionally equal types)
+        if len(r.key) > len(l.key) or not self.compatible(self.key_type(r.row, r.key), self.key_type(l.row, l.key)):
+            raise EngineRejects(f'TableLeftJoinRightDistinct: right key {self.key_type(r.row, r.key)} is not a prefix of the left key {self.key_type(l.row, l.key)}')
         return self.T(self.s_struct_insert(l.row, self.value_type(r.row, r.key), [x.root]), l.key, l.globals)
 
     def _r_TableMapPartitions(self, x):         # child.typ.copy(rowType = body.typ.asInstanceOf[TStream].elementType.asInstanceOf[TStruct])
@@ -560,7 +613,20 @@ class EngineTyper:
     _r_MatrixDistinctByRow = _r_MatrixRowsHead = _r_MatrixColsHead = _r_MatrixRowsTail = _r_MatrixColsTail = _r_MatrixFilterIntervals = _msame_as_child
 
     def _r_MatrixUnionRows(self, x):            # childrenSeq.head.typ
-        return self.child(x.children[0])
+        cs = [self.child(c) for c in x.children]
+        self.nary(x, list(x.children))
+        # TypeCheck.scala compatible(t1, t2): colKeyStruct ==, rowType ==, rowKey ==, entryType ==
+        f = cs[0]
+        for i, c in enumerate(cs[1:], 1):
+            if not self.same(self.s_select(c.col, c.col_key), self.s_select(f.col, f.col_key)):
+                raise EngineRejects(f'MatrixUnionRows: col key struct of child {i} is {self.s_select(c.col, c.col_key)}, of child 0 {self.s_select(f.col, f.col_key)}')
+            if not self.same(c.row, f.row):
+                raise EngineRejects(f'MatrixUnionRows: row type of child {i} is {c.row}, of child 0 {f.row}')
+            if list(c.row_key) != list(f.row_key):
+                raise EngineRejects(f'MatrixUnionRows: row key of child {i} is {c.row_key}, of child 0 {f.row_key}')
+            if not self.same(c.entry, f.entry):
+                raise EngineRejects(f'MatrixUnionRows: entry type of child {i} is {c.entry}, of child 0 {f.entry}')
+        return f
 
     def _menv(self, c):
         return {'global': c.globals, 'va': c.row, 'sa': c.col, 'g': c.entry}
@@ -588,6 +654,14 @@ class EngineTyper:
 
     def _r_MatrixUnionCols(self, x):
         l, r = self.child(x.left), self.child(x.right)
+        self.nary(x, [x.left, x.right])
+        # TypeCheck.scala: rowKeyStruct ==, colType ==, entryType ==
+        if not self.same(self.s_select(l.row, l.row_key), self.s_select(r.row, r.row_key)):
+            raise EngineRejects(f'MatrixUnionCols: row key structs {self.s_select(l.row, l.row_key)} != {self.s_select(r.row, r.row_key)}')
+        if not self.same(l.col, r.col):
+            raise EngineRejects(f'MatrixUnionCols: col types {l.col} != {r.col}')
+        if not self.same(l.entry, r.entry):
+            raise EngineRejects(f'MatrixUnionCols: entry types {l.entry} != {r.entry}')
         left_key_type = self.s_select(l.row, l.row_key)              # left.typ.rowKeyStruct
         left_value_type = self.s_filter_out(l.row, l.row_key)        # left.typ.rowValueStruct
         right_value_type = self.s_filter_out(r.row, r.row_key)
